@@ -144,6 +144,17 @@ def returns_fresh(prog, g, depth=0):
             if X.is_null_const(e):
                 continue
             calls = [c for c in X.calls_in(e)]
+            se_ = X.strip(e)
+            if not calls and se_ is not None and se_.get("k") == "ref" and se_.get("rk") == "local" and se_.get("d") != d:
+                # through another local (shrunk = REALLOC(buf, n); buf = shrunk;): what that local is given
+                d2 = se_["d"]
+                for x in walk(g.body):
+                    if x.get("k") == "assign" and x.get("op") == "=" and X.strip(x["ch"][0]).get("k") == "ref" and X.strip(x["ch"][0]).get("d") == d2:
+                        calls += [c for c in X.calls_in(x["ch"][1])]
+                    elif x.get("k") == "decl":
+                        for dc in x.get("decls", ()):
+                            if dc["d"] == d2 and dc.get("init") is not None:
+                                calls += [c for c in X.calls_in(dc["init"])]
             good = False
             for c in calls:
                 cn = X.callee_name(c) or ""
